@@ -287,6 +287,93 @@ def enum_attempts(tier: str):
                     yield {"fn": fn, "base": base, "max": mx, "attempt": attempt, "prev": None if attempt % 2 else mx, "r": r, "klass": "TRANSIENT", "defaults": False}
 
 
+# ---------------------------------------------------------------------------- adaptive() shared by threads
+
+
+def enum_adaptive_threads(tier: str):
+    import itertools
+
+    ops = ["call", "ok", "fail"]
+    pres = ([], ["ok", "fail"]) if tier == "quick" else ([], ["fail"], ["ok", "fail"], ["fail", "fail", "ok"])
+    for pre in pres:
+        for a, b in itertools.product(ops, repeat=2):
+            if tier == "quick" and "call" not in (a, b):
+                continue
+            # all schedules (thorough) / all schedules with <= 3 pre-emptions (quick)
+            yield {"pre": pre, "program": [[a], [b]], "max_preemptions": None if tier == "thorough" else 3, "max_schedules": 30000 if tier == "thorough" else 2500}
+        if tier == "thorough":
+            for a, b, c in itertools.product(ops, repeat=3):
+                yield {"pre": pre, "program": [[a, b], [c]], "max_preemptions": 3, "max_schedules": 6000}
+
+
+def check_adaptive_threads(case: dict) -> Verdict:
+    """One adaptive() strategy shared by threads (a module-level policy used from a pool): whatever the
+    interleaving, calls return one of the values a sequential order gives and nothing raises."""
+    import itertools
+
+    from ..sched import Deadlock, LockFactory, explore
+
+    v = Verdict()
+    files = {S.__file__}
+    ctx = BackoffContext(1, Classification(ErrorClass.TRANSIENT), None, None, "exception")
+
+    def build():
+        factory = LockFactory()
+        bootstrap.set_sched(factory)
+        try:
+            a = S.adaptive(lambda c: 1.0, window_s=60.0, target_success=0.5, min_multiplier=1.0, max_multiplier=5.0, clock=lambda: 100.0)
+        finally:
+            bootstrap.set_sched(None)
+        for op in case["pre"]:
+            (a.record_success if op == "ok" else a.record_failure)()
+        return factory, a
+
+    def do(a, op):
+        if op == "call":
+            return ("call", a(ctx))
+        if op == "ok":
+            a.record_success()
+            return ("ok",)
+        a.record_failure(ErrorClass.TRANSIENT)
+        return ("fail",)
+
+    program = case["program"]
+    allowed = set()
+    slots = [i for i, ops in enumerate(program) for _ in ops]
+    for perm in set(itertools.permutations(slots)):
+        _, a = build()
+        idx = [0] * len(program)
+        res = [[] for _ in program]
+        for t in perm:
+            res[t].append(do(a, program[t][idx[t]]))
+            idx[t] += 1
+        allowed.add((tuple(("ok", tuple(r)) for r in res), a(ctx)))
+    holder = {}
+
+    def make():
+        factory, a = build()
+        holder["a"] = a
+        return factory, [(lambda ops=ops, a=a: tuple(do(a, o) for o in ops)) for ops in program], lambda: a(ctx)
+
+    n = 0
+    for choices, res, obs, s, err in explore(make, files, max_preemptions=case["max_preemptions"], max_schedules=case["max_schedules"]):
+        n += 1
+        if err is not None:
+            v.fail("C18:adaptive:threads:" + ("deadlock" if isinstance(err, Deadlock) else "hang"), f"{case}: {err} under schedule {choices}")
+            break
+        if any(r[0] == "exc" for r in res):
+            v.fail("C18:adaptive:threads:raises", f"adaptive() shared by threads, {case}: a thread raised {[r for r in res if r[0] == 'exc']} under schedule {choices}")
+            break
+        out = (tuple((r[0], r[1]) for r in res), obs)
+        if out not in allowed:
+            v.fail("C18:adaptive:threads:not-sequential", f"adaptive() shared by threads, {case}: outcome {out} under schedule {choices} matches no sequential order")
+            break
+    v.evals = max(1, n)
+    v.nontrivial = True
+    v.tag("adaptive-threads")
+    return v
+
+
 PROP = Property(
     id="C18",
     level="exploration",
@@ -294,7 +381,9 @@ PROP = Property(
         "Hypothesis-generated (strategy, base_s<=max_s over all finite floats, attempt in 1..1e6 incl. 1023/1024/1750/1751, "
         "prev, generated random draw r fed through random.uniform) plus an exhaustive sweep of attempt=1..N for 7 parameter "
         "pairs x 3 draws; retry_after_or over (hint, fallback, remaining, jitter) incl. NaN/inf; adaptive() over generated "
-        "record/tick/call histories with boundary ages. Non-trivial = attempt >= 64, or draw at an end of [0,1), or a clamp "
+        "record/tick/call histories with boundary ages; and one adaptive() strategy shared by two threads (calls racing with "
+        "record_success/record_failure) under every schedule of the harness-owned scheduler: nothing raises and every result equals "
+        "a sequential order's. Non-trivial = attempt >= 64, or draw at an end of [0,1), or a clamp "
         "(max_s / remaining_s) active, or a non-finite hint/fallback, or an adaptive history with >=2 records and a call. "
         "Distinct = distinct canonical case."
     ),
@@ -307,5 +396,6 @@ PROP = Property(
         Stream("attempt_sweep", check_jitter, enum=enum_attempts, quick=1, thorough=1, exhaustive=True),
         Stream("retry_after_or", check_rao, strategy=rao_case(), quick=16000, thorough=300000),
         Stream("adaptive", check_adaptive, strategy=adaptive_case(), quick=4000, thorough=60000),
+        Stream("adaptive_threads", check_adaptive_threads, enum=enum_adaptive_threads, quick=1, thorough=1),
     ],
 )
